@@ -32,7 +32,8 @@ def build_system_matrix(net, branch_pit, node_pit, heat_mode):
     :return: system_matrix, load_vector
     :rtype: system_matrix - scipy.sparse.csr.csr_matrix, load_vector - numpy.ndarray
     """
-    update_option = get_net_option(net, "only_update_hydraulic_matrix")
+    # only the hydraulic matrix keeps its structure (the thermal one follows the flow directions)
+    update_option = get_net_option(net, "only_update_hydraulic_matrix") and not heat_mode
     update_only = update_option and "hydraulic_data_sorting" in net["_internal_data"] \
                   and "hydraulic_matrix" in net["_internal_data"]
     use_numba = get_net_option(net, "use_numba")
@@ -226,6 +227,13 @@ def build_system_matrix(net, branch_pit, node_pit, heat_mode):
             system_data = system_data[data_order]
             system_cols = system_cols[data_order]
             system_rows = system_rows[data_order]
+            # entries addressing the same matrix element (e.g. a pressure controller at one of its
+            # own nodes) are summed, as csr_matrix does for coordinate input
+            data_starts = np.flatnonzero(np.r_[True, (system_rows[1:] != system_rows[:-1])
+                                               | (system_cols[1:] != system_cols[:-1])][:full_len])
+            system_data = np.add.reduceat(system_data, data_starts)
+            system_cols = system_cols[data_starts]
+            system_rows = system_rows[data_starts]
 
             row_counter = np.zeros(len_b + len_n + len_sl + 1, dtype=np.int32)
             unique_rows, row_counts = _sum_by_group_sorted(system_rows, np.ones_like(system_rows))
@@ -234,10 +242,12 @@ def build_system_matrix(net, branch_pit, node_pit, heat_mode):
             system_matrix = csr_matrix((system_data, system_cols, ptr),
                                        shape=(len_n + len_b + len_sl, len_n + len_b + len_sl))
             net["_internal_data"]["hydraulic_data_sorting"] = data_order
+            net["_internal_data"]["hydraulic_data_starts"] = data_starts
             net["_internal_data"]["hydraulic_matrix"] = system_matrix
     else:
         data_order = net["_internal_data"]["hydraulic_data_sorting"]
-        system_data = system_data[data_order]
+        system_data = np.add.reduceat(system_data[data_order],
+                                      net["_internal_data"]["hydraulic_data_starts"])
         system_matrix = net["_internal_data"]["hydraulic_matrix"]
         system_matrix.data = system_data
 
